@@ -1066,7 +1066,9 @@ theorem mid_processPeriod {s : St} (h : Mid s) (mpsPk : Nat) (hm : mpsPk ∈ s.m
       · simp at hp
       · split at hp
         · simp at hp
-        · simp only [Option.some.injEq, Prod.mk.injEq] at hp
+        · split at hp
+          · simp at hp
+          simp only [Option.some.injEq, Prod.mk.injEq] at hp
           obtain ⟨hp, _⟩ := hp
           subst hp
           refine ⟨⟨?_, tref_of_files t rfl rfl⟩, rfl⟩
@@ -1491,7 +1493,9 @@ theorem processPeriod_frame {s s' : St} {mpsPk : Nat} {sp : PSpec} {d : List Nat
       · simp at h
       · split at h
         · simp at h
-        · simp only [Option.some.injEq, Prod.mk.injEq] at h
+        · split at h
+          · simp at h
+          simp only [Option.some.injEq, Prod.mk.injEq] at h
           obtain ⟨rfl, _⟩ := h
           exact ⟨rfl, rfl, rfl, rfl⟩
 
